@@ -180,7 +180,10 @@ func (p *Program) newCtx(fn *ssa.Function, con *Contract) *Ctx {
 }
 
 // query assembles the SMT-LIB text for one obligation
-func (c *Ctx) prelude() string {
+func (c *Ctx) prelude() string { return c.preludeUpTo(-1) }
+
+// preludeUpTo: declarations, axioms and the first n assumed facts (all when n < 0)
+func (c *Ctx) preludeUpTo(n int) string {
 	var sb strings.Builder
 	for _, d := range c.decls {
 		sb.WriteString(d)
@@ -190,7 +193,10 @@ func (c *Ctx) prelude() string {
 		sb.WriteString("(assert " + a + ")\n")
 	}
 	seen := map[string]bool{}
-	for _, a := range c.asserts {
+	for i, a := range c.asserts {
+		if n >= 0 && i >= n && c.pathFact[i] {
+			continue
+		}
 		if a == "true" || seen[a] {
 			continue
 		}
